@@ -32,7 +32,7 @@ from .. import universe as U
 LEVEL = "model_checking"
 # set C06_MODEL_FIXES=1 when proposed/C06-fix-1.diff has been applied to /repo: the trace specification then
 # compares with the repaired model (otherwise the repaired behaviour would be reported as drift)
-TRACE_CFG = "CallsTrace.fixed.cfg" if os.environ.get("C06_MODEL_FIXES") else "CallsTrace.cfg"
+TRACE_CFG = "CallsTrace.cfg"   # FixProtoCache = TRUE since the repair is committed in /repo (73ce54b)
 CHUNK = 250
 ACTIONS = ["ChooseFn", "AddPos", "AddKw", "Finish", "StartSess", "AddSessCall", "FinishSess"]
 # every path of check_call_with_bound_args (and of the oracle) must be seen on REAL observations
